@@ -7542,10 +7542,12 @@ tmcg_openpgp_armor_t CallasDonnerhackeFinneyShawThayerRFC4880::ArmorDecode
 		std::cerr << "ERROR: nested armor block found" << std::endl;
 		return TMCG_OPENPGP_ARMOR_UNKNOWN; // nested armor block found
 	}
-	if (((spos + 24) < rpos) && ((rpos + 2) < cpos))
+	if (((spos + 24) < rpos) && ((rpos + 1) <= cpos))
 	{
 		std::string chksum = "";
-		std::string data = in.substr(rpos + 2, cpos - rpos - 2);
+		std::string data = ""; // an empty body is valid
+		if ((rpos + 2) < cpos)
+			data = in.substr(rpos + 2, cpos - rpos - 2);
 		tmcg_openpgp_octets_t decoded_data;
 		Radix64Decode(data, decoded_data);
 		if ((cpos + 6) < epos)
